@@ -183,6 +183,71 @@ fn check_set<T: Elem>(s: &Oset<T>, m: &BTreeSet<T>) -> Option<String> {
     None
 }
 
+/// Sets of tens of thousands of elements (cardinalities around 2^8, 2^16, 2^17): built by from_iter /
+/// extend / insert in a few big steps, then compared with the model through iteration, len and
+/// `contains` probes spread over the whole range (present and absent elements, first, last, the
+/// elements around every power of two).
+fn run_large_history(w: &mut Worker, rng: &mut Rng) {
+    let n = *rng.pick(&[255usize, 256, 257, 4095, 4097, 65_535, 65_536, 65_537, 70_000, 131_071, 131_073, 200_000]);
+    let stride = *rng.pick(&[1i64, 2, 3, 7]);
+    let mut all: Vec<i64> = (0..n as i64).map(|i| i * stride - if rng.chance(0.5) { 1_000 } else { 0 }).collect();
+    all.sort();
+    all.dedup();
+    let model: BTreeSet<i64> = all.iter().copied().collect();
+    let mut order = all.clone();
+    match rng.below(3) {
+        0 => {}
+        1 => order.reverse(),
+        _ => rng.shuffle(&mut order),
+    }
+    let cut = rng.below(order.len() + 1);
+    let log = vec![format!("{} elements (stride {stride}); from_iter of the first {cut} in {} order, extend with the rest, 50 single inserts", order.len(), ["ascending", "descending", "random"][0])];
+    let mut set: Oset<i64> = order[..cut].iter().copied().collect();
+    let rest: Vec<i64> = order[cut..].to_vec();
+    let tail = rest.len().saturating_sub(50);
+    set.extend(rest[..tail].iter().copied());
+    for x in &rest[tail..] {
+        set.insert(*x);
+    }
+    let fail = |w: &mut Worker, sig: &str, what: String| {
+        w.violation(sig, &what, json!({"element_type": "i64 (large cardinality)", "history": log}));
+    };
+    let got: Vec<i64> = set.iter().copied().collect();
+    if got.len() != model.len() || !got.iter().zip(model.iter()).all(|(a, b)| a == b) {
+        fail(w, "elements-differ", format!("iteration yields {} elements, the model has {}", got.len(), model.len()));
+        return;
+    }
+    let mut probes: Vec<i64> = vec![all[0], all[all.len() - 1], all[0] - 1, all[all.len() - 1] + 1];
+    let mut p = 1usize;
+    while p < all.len() {
+        for q in [p - 1, p, p + 1] {
+            if q < all.len() {
+                probes.push(all[q]);
+                probes.push(all[q] + 1);
+            }
+        }
+        p *= 2;
+    }
+    for _ in 0..400 {
+        let x = *rng.pick(&all);
+        probes.push(x);
+        probes.push(x + 1);
+    }
+    for x in probes {
+        if set.contains(&x) != model.contains(&x) {
+            fail(w, "contains-wrong", format!("contains({x}) = {}, the model says {} (set of {} elements)", set.contains(&x), model.contains(&x), model.len()));
+            return;
+        }
+    }
+    let rebuilt: Oset<i64> = all.iter().rev().copied().collect();
+    if rebuilt != set || rebuilt.cmp(&set) != Ordering::Equal {
+        fail(w, "equality-not-by-element-set", "a set rebuilt from the same elements in another order is not equal".to_string());
+        return;
+    }
+    w.count("large-cardinality-histories");
+    w.max("max-set-cardinality", model.len() as u64);
+}
+
 fn run_history<T: Elem>(w: &mut Worker, rng: &mut Rng, n_ops: usize) {
     let k = rng.range(1, 4);
     let mut sets: Vec<Oset<T>> = (0..k).map(|_| Oset::new()).collect();
@@ -365,6 +430,10 @@ impl Engine for OsetEngine {
             kiki::verif_hooks::reset(u64::MAX);
             let r = crate::util::catch(|| {
                 let mut rng2 = rng.clone();
+                if n % 97 == 11 {
+                    run_large_history(w, &mut rng2);
+                    return;
+                }
                 match n % 9 {
                     0 => run_history::<u8>(w, &mut rng2, n_ops),
                     1 => run_history::<i64>(w, &mut rng2, n_ops),
@@ -388,7 +457,7 @@ impl Engine for OsetEngine {
         json!({"class": "oset-history", "batch": idx, "sub": sub})
     }
     fn rule(&self, _prop: &str) -> String {
-        "histories of 5-200 operations (new, from_iter, insert, extend, clone, contains, extend-from-other-set, pair comparison; from_iter and extend receive their elements through 8 iterator shapes: exact size hint, lower bound 0, no hint, chain, flat_map, from_fn, peekable, fuse) over 1-4 live sets, element types u8 (8 values), i64 (with extremes), (u8,String), Reverse<u16>, kiki's Symbol, StateItem and Transition, a 1448-byte struct and the zero-sized (); inputs with duplicates, ascending and descending runs, empties. After every operation every live set is compared with a std BTreeSet model: borrowed, owned and deref iteration strictly increasing and equal to the model, contains, len; pair comparisons check == against set equality, cmp against sets rebuilt along different histories from the same elements, and the order laws (antisymmetry, Equal iff equal, transitivity through a third set, the operators < <= > >= != and partial_cmp agreeing with cmp, a clone equal to its original; Hash and Debug consistency is observed and counted but is not part of the property). One evaluation = one history (or one pipeline run with the H3 invariant hook armed on the real element types). Distinct non-trivial = distinct histories with >= 10 operations.".into()
+        "histories of 5-200 operations (new, from_iter, insert, extend, clone, contains, extend-from-other-set, pair comparison; from_iter and extend receive their elements through 8 iterator shapes: exact size hint, lower bound 0, no hint, chain, flat_map, from_fn, peekable, fuse) over 1-4 live sets, element types u8 (8 values), i64 (with extremes), (u8,String), Reverse<u16>, kiki's Symbol, StateItem and Transition, a 1448-byte struct and the zero-sized (); every 97th history instead builds ONE large set (255 .. 200 000 elements, cardinalities around 2^8, 2^12, 2^16, 2^17) in a few big steps and probes contains over the whole range; inputs with duplicates, ascending and descending runs, empties. After every operation every live set is compared with a std BTreeSet model: borrowed, owned and deref iteration strictly increasing and equal to the model, contains, len; pair comparisons check == against set equality, cmp against sets rebuilt along different histories from the same elements, and the order laws (antisymmetry, Equal iff equal, transitivity through a third set, the operators < <= > >= != and partial_cmp agreeing with cmp, a clone equal to its original; Hash and Debug consistency is observed and counted but is not part of the property). One evaluation = one history (or one pipeline run with the H3 invariant hook armed on the real element types). Distinct non-trivial = distinct histories with >= 10 operations.".into()
     }
     fn floors(&self, _prop: &str, _tier: Tier, agg: &Agg) -> Vec<String> {
         let mut out = vec![];
